@@ -1,5 +1,13 @@
 import FranzVerif.Model.Consumer
-/-! History-level observables for the direct-consumer monitor (C04, C05, fetch half of C14) and helper lemmas. -/
+/-! History-level observables for the direct-consumer monitor (C04, C05, fetch half of C14) and helper lemmas.
+
+Layout of the proof:
+* this file: the observables, `run` on a concatenation (`run_append`, `run_split`, `run_snoc`, `run_prefix`),
+  `lastOf` after a returned record, what an accepted `returned` event tells (`returned_check`);
+* `Proof/ConsumerInv.lean`: how each observable changes on `h ++ [ev]`, the invariant `Inv c h s` relating the
+  state reached by `run` to the observables, its preservation by every accepted event, `inv_of_run`;
+* `Proof/ConsumerFacts.lean`: facts read off the invariant — `txnOf`, the rules of `quiesce` (`Quiet`),
+  monotonicity of `ret`/`nret`/`decided` along a run (`Mono`), a place is returned at most once. -/
 namespace Proof.Consumer
 open Model.Consumer
 
@@ -22,5 +30,107 @@ def unbufferedHooks (h : List Ev) : List (Nat × Nat) :=
 /-- the history contains a failed producer-side step (then completeness is not judged) -/
 def isIncomplete (h : List Ev) : Bool :=
   h.any (fun e => match e with | .incomplete => true | .endDone _ _ ok => !ok | _ => false)
+
+/-- the value of the last `gauge` event, if any -/
+def lastGauge (h : List Ev) : Option Nat :=
+  (h.filterMap (fun e => match e with | .gauge n => some n | _ => none)).getLast?
+
+/-! ### `run` on a concatenation -/
+
+theorem step_eq_some {c : Cfg} {s s' : St} {ev : Ev} (hs : step c s ev = some s') :
+    check c s ev = none ∧ s' = apply c s ev := by
+  unfold step at hs
+  split at hs
+  · simp at hs; exact ⟨by assumption, hs.symm⟩
+  · simp at hs
+
+theorem run_append (c : Cfg) (s : St) (h₁ h₂ : List Ev) :
+    run c s (h₁ ++ h₂) = (run c s h₁).bind (fun s' => run c s' h₂) := by
+  induction h₁ generalizing s with
+  | nil => rfl
+  | cons e es ih =>
+    simp only [List.cons_append, run]
+    cases step c s e with
+    | none => rfl
+    | some s' => exact ih s'
+
+/-- an accepted history decomposes at any event -/
+theorem run_split {c : Cfg} {s₀ : St} {h₁ h₂ : List Ev} {ev : Ev} {s : St} (hacc : run c s₀ (h₁ ++ ev :: h₂) = some s) :
+    ∃ s₁, run c s₀ h₁ = some s₁ ∧ check c s₁ ev = none ∧ run c (apply c s₁ ev) h₂ = some s := by
+  rw [run_append] at hacc
+  cases h1 : run c s₀ h₁ with
+  | none => simp [h1] at hacc
+  | some s₁ =>
+    simp only [h1, Option.bind_some, run] at hacc
+    cases hs : step c s₁ ev with
+    | none => simp [hs] at hacc
+    | some s2 =>
+      obtain ⟨hchk, rfl⟩ := step_eq_some hs
+      simp only [hs] at hacc
+      exact ⟨s₁, rfl, hchk, hacc⟩
+
+theorem run_snoc {c : Cfg} {s₀ : St} {h : List Ev} {ev : Ev} {s : St} (hacc : run c s₀ (h ++ [ev]) = some s) :
+    ∃ s₁, run c s₀ h = some s₁ ∧ check c s₁ ev = none := by
+  obtain ⟨s₁, h1, h2, _⟩ := run_split hacc
+  exact ⟨s₁, h1, h2⟩
+
+/-- every prefix of an accepted history is accepted -/
+theorem run_prefix {c : Cfg} {s₀ : St} {h₁ h₂ : List Ev} {s : St} (hacc : run c s₀ (h₁ ++ h₂) = some s) :
+    ∃ s₁, run c s₀ h₁ = some s₁ := by
+  rw [run_append] at hacc
+  cases h1 : run c s₀ h₁ with
+  | none => simp [h1] at hacc
+  | some s₁ => exact ⟨s₁, rfl⟩
+
+/-! ### `lastOf` after a returned record -/
+
+theorem find_filter_ne (l : List (Nat × Nat)) (p q : Nat) (hne : q ≠ p) :
+    (l.filter (·.1 != p)).find? (·.1 == q) = l.find? (·.1 == q) := by
+  induction l with
+  | nil => rfl
+  | cons a l ih =>
+    obtain ⟨a1, a2⟩ := a
+    by_cases h1 : a1 = p
+    · subst h1
+      have : ¬ a1 = q := fun h => hne h.symm
+      simpa [List.filter_cons, List.find?_cons, this] using ih
+    · by_cases h2 : a1 = q
+      · subst h2
+        simp [h1]
+      · simpa [List.filter_cons, h1, List.find?_cons, h2] using ih
+
+theorem lastOf_returned_same (c : Cfg) (s : St) (part off : Nat) (id : Id) (ctl : Bool) :
+    lastOf (apply c s (.returned part off id ctl)) part = some off := by
+  simp [lastOf, apply]
+
+theorem lastOf_returned_other (c : Cfg) (s : St) (part off : Nat) (id : Id) (ctl : Bool) (q : Nat) (hne : q ≠ part) :
+    lastOf (apply c s (.returned part off id ctl)) q = lastOf s q := by
+  have : (part == q) = false := by simpa using fun h => hne h.symm
+  simp only [lastOf, apply, List.find?_cons, this]
+  rw [find_filter_ne _ _ _ hne]
+
+/-! ### what an accepted event tells -/
+
+theorem returned_check {c : Cfg} {s : St} {part off : Nat} {id : Id} {ctl : Bool}
+    (h : check c s (.returned part off id ctl) = none) :
+    c.start ≤ off ∧ (∀ l, lastOf s part = some l → l < off) ∧ (ctl = true → c.keepCtl = true) := by
+  simp only [check] at h
+  split at h
+  · simp at h
+  · rename_i hs
+    refine ⟨by omega, ?_, ?_⟩
+    · intro l hl
+      simp only [hl] at h
+      split at h
+      · simp at h
+      · omega
+    · intro hc
+      subst hc
+      cases hl : lastOf s part with
+      | none => simp only [hl] at h; cases hk : c.keepCtl <;> simp [hk] at h ⊢
+      | some l =>
+        simp only [hl] at h
+        cases hk : c.keepCtl <;> simp [hk] at h ⊢
+        split at h <;> simp at h
 
 end Proof.Consumer
